@@ -9,7 +9,7 @@ From Coq Require Import NArith ZArith List Bool.
 Import ListNotations.
 Local Open Scope Z_scope.
 
-Definition byte := N.
+Notation byte := N (only parsing).     (* a byte is an N < 256 *)
 
 Inductive outcome (A : Type) : Type :=
 | Ok (a : A)
